@@ -1,7 +1,7 @@
 (* The monitor on the model's trace: what one Execute event does to the operation table (c03_exec, c05_exec). *)
 From Coq Require Import Lia.
 From VF Require Export Sched.ProofsMon3.
-From VF Require Import Sched.Spec Sched.Corr Sched.ProofsObsLink Sched.ProofsLearner Sched.ProofsRoute Sched.ProofsExec Sched.ProofsInflight.
+From VF Require Import Sched.Spec Sched.Corr Sched.ProofsObsLink Sched.ProofsLearner Sched.ProofsRoute Sched.ProofsExec Sched.ProofsInflight Sched.ProofsSpec.
 Open Scope Z_scope.
 
 (* ---- the clean-up at the start of an event only removes operations and in-flight entries ------------------------------------------------------- *)
@@ -295,4 +295,143 @@ Lemma inflight_in_dump : forall s k, existsb (fun '(k', _) => dkey_eqb k' k) (d_
 Proof.
   intros s k. unfold observe. cbn [d_inflight]. induction (s_inflight s) as [|[k1 t1] l IH]; cbn; [reflexivity|].
   rewrite (eqb_sym_of dkey_eqb dkey_eqb_eq k1 k). destruct (dkey_eqb k k1); [reflexivity|exact IH].
+Qed.
+
+(* ---- e_exec on a model step ------------------------------------------------------------------------------------------------------------------------------------ *)
+Definition pre_ok (pre : dump) (s : state) : Prop := d_ops pre = d_ops (observe s) /\ d_inflight pre = d_inflight (observe s).
+
+Lemma pc_exec_ok : forall cfg t0 pfx eh pre,
+  good cfg t0 (pfx ++ [eh]) -> ~ panicked (snd (run (init cfg t0) (pfx ++ [eh]))) ->
+  let s := fst (run (init cfg t0) pfx) in
+  pre_ok pre s ->
+  pc_exec cfg t0 pre (observe (fst (step s eh))) (fst eh) (snd (step s eh)) = ""%string.
+Proof.
+  intros cfg t0 pfx [e h] pre Hg Hnp s Hpre. unfold pc_exec. cbn [fst]. destruct e as [c a t| | | | | | | | | | | |]; try reflexivity.
+  pose proof (good_prefix _ _ _ _ Hg) as [Hsel [Hfr Hbg]].
+  assert (Hnp0 : ~ panicked (snd (run (init cfg t0) pfx))) by (intro Hp; apply Hnp; rewrite run_snoc_snd; apply panicked_app; left; exact Hp).
+  assert (Hno : forall what, ~ In (OPanic what) (snd (step s (EStartExecute c a t, h)))).
+  { intros what Hw. apply Hnp. rewrite run_snoc_snd. apply panicked_app. right. exists (snd (step s (EStartExecute c a t, h))), what. split; [left; reflexivity|exact Hw]. }
+  destruct (Cok_run pfx (init cfg t0) Hsel (Cok_init cfg t0)) as [Hp|HC]; [contradiction|]. fold s in HC.
+  destruct (hardfail_const cfg t0 pfx) as [Hcfg Hhf]. fold s in Hcfg, Hhf.
+  (* the step, unfolded *)
+  set (s0 := s <| s_hints := h |> <| s_out := [] |>).
+  set (s1 := enter t s0). set (s2 := exec_start c a s1). set (s3 := auto_returns s2).
+  assert (Estep : step s (EStartExecute c a t, h) = (s3 <| s_out := [] |> <| s_hints := [] |>, rev (s_out s3))) by reflexivity.
+  rewrite Estep in *. cbn [fst snd] in *.
+  assert (H0 : Cok s0) by (eapply Cok_eq; [..|exact HC]; reflexivity).
+  destruct (TOP_enter t s0 (Cok_TOP _ H0)) as [HFI1 [HTN1 HI1]]. fold s1 in HFI1, HTN1, HI1.
+  assert (Hpan : forall st, Pan st -> (forall x, In x (s_out st) -> In x (s_out s3)) -> False).
+  { intros st [what Hw] Hsub. apply (Hno what). rewrite <- in_rev. apply Hsub. exact Hw. }
+  assert (Hout12 : forall x, In x (s_out s1) -> In x (s_out s3)).
+  { intros x Hx. assert (Hx2 : out_has x s2) by (unfold s2; assert (H1 : out_has x s1) by exact Hx; unfold exec_start, new_operation, wait_execution_begin, stream_iter, ret; inv_go fail t_oh).
+    unfold s3. assert (H3 : out_has x (auto_returns s2)); [|exact H3]. apply (fr_auto_returns (out_has x)); try (intros; t_oh); try (intros; unfold ret; inv_go fail t_oh); try exact Hx2. }
+  destruct HTN1 as [Hp|HTN1]; [exfalso; exact (Hpan s1 Hp Hout12)|].
+  destruct (exec_start_desc c a s1 (FI_W _ HFI1) HI1 HTN1) as [Epq [Enow Hdesc]]. fold s2 in Epq, Enow, Hdesc.
+  destruct (keys_auto_returns s2) as [A1 [A2 [A3 [A4 [A5 [A6 A7]]]]]]. fold s3 in A1, A2, A3, A4, A5, A6, A7.
+  set (s' := s3 <| s_out := [] |> <| s_hints := [] |>).
+  assert (Eops : d_ops (observe s') = d_ops (observe s2)) by (apply observe_frame_ops; [exact A1|exact A2|exact A3]).
+  destruct (KS_enter t s0) as [KSa [KSi KSn]]. fold s1 in KSa, KSi, KSn.
+  assert (Hal0 : forall o, op_alive s0 o = op_alive s o) by (intro; reflexivity).
+  assert (Hn1 : s_nops s1 = s_nops s) by exact KSn.
+  pose proof (W_op_fresh s (proj1 (proj2 HC))) as Hfo.
+  (* the operations of the post-state that the pre-state does not name *)
+  assert (Hnew : new_ops pre (observe s') = map (fun '(o, x) => observe_op s2 o x) (filter (fun '(o, _) => negb (op_alive s o)) (s_ops s2))).
+  { unfold new_ops. rewrite Eops. fold (new_ops pre (observe s2)). apply new_ops_filter. exact (proj1 Hpre). }
+  assert (Hold : forall k, In k (map fst (s_ops s1)) -> negb (op_alive s k) = false).
+  { intros k Hk. apply negb_false_iff. rewrite <- Hal0. apply KSa. unfold op_alive. destruct (aget Nat.eqb k (s_ops s1)) eqn:E; [reflexivity|].
+    exfalso. exact (aget_None_notin Nat.eqb nat_eqb_eq _ _ E Hk). }
+  assert (Hfresh : negb (op_alive s (s_nops s1)) = true) by (rewrite Hn1; unfold op_alive; rewrite Hfo; reflexivity).
+  assert (Hndo2 : NoDup (map fst (s_ops s2))).
+  { pose proof (proj1 (ML_run cfg t0 (pfx ++ [(EStartExecute c a t, h)]))) as Hnd. rewrite run_snoc_fst in Hnd. fold s in Hnd. rewrite Estep in Hnd. cbn [fst] in Hnd.
+    change (s_ops (s3 <| s_out := [] |> <| s_hints := [] |>)) with (s_ops s3) in Hnd. rewrite A1 in Hnd. exact Hnd. }
+  assert (Hinfl : aget dkey_eqb (x_instance a, x_digest a) (s_inflight s1) <> None ->
+                  existsb (fun '(k, _) => dkey_eqb k (x_instance a, x_digest a)) (d_inflight pre) = true).
+  { intro Hn. rewrite (proj2 Hpre), inflight_in_dump. specialize (KSi _ Hn). change (s_inflight s0) with (s_inflight s) in KSi.
+    destruct (aget dkey_eqb (x_instance a, x_digest a) (s_inflight s)); [reflexivity|congruence]. }
+  apply first_nonempty_all_empty. intros y [<-|[<-|[<-|[]]]].
+  - (* the selector is consulted exactly once *)
+    pose proof (c07_exec_ok s c a t h) as Hc. rewrite Estep in Hc. exact Hc.
+  - (* do_not_cache requests stand alone *)
+    unfold c03_exec. destruct (x_dnc a) eqn:Ednc; [|reflexivity].
+    match goal with |- match filter ?P (d_ops (observe s')) with _ => _ end = _ => destruct (filter P (d_ops (observe s'))) as [|d dl] eqn:Ef end; [reflexivity|].
+    assert (Hd : In d (filter (fun o => negb (existsb (fun o' => Nat.eqb (do_name o) (do_name o')) (d_ops pre))
+                           && dkey_eqb (dkey_of o) (x_instance a, x_digest a)
+                           && match do_action o with Some (true, _) => negb (do_mayexist o) | _ => false end) (d_ops (observe s')))) by (rewrite Ef; left; reflexivity).
+    apply filter_In in Hd. destruct Hd as [Hd Hc]. apply andb_true_iff in Hc. destruct Hc as [Hc Hact]. apply andb_true_iff in Hc. destruct Hc as [Hc1 Hc2].
+    assert (Hdn : In d (new_ops pre (observe s'))) by (unfold new_ops; apply filter_In; split; [exact Hd|exact Hc1]).
+    rewrite Hnew in Hdn. apply in_map_iff in Hdn. destruct Hdn as [[o x] [<- Hox]]. apply filter_In in Hox. destruct Hox as [Hox Hnal].
+    assert (Ego : get_op s2 o = x) by (unfold get_op; rewrite (In_aget_NoDup Nat.eqb nat_eqb_eq _ _ _ Hndo2 Hox); reflexivity).
+    destruct Hdesc as [[Ks _]|[[Kd [xn [x0 [HO [Hm [HT [Hi [Hdg [Hlen Hdc]]]]]]]]]|[Kn [_ [p [xn [x0 [Hlp [HO [Hm [Hinv [HT [Hops _]]]]]]]]]]]]].
+    + exfalso. assert (Hk : In o (map fst (s_ops s1))) by (rewrite <- Ks; apply in_map_iff; exists (o, x); auto). rewrite (Hold o Hk) in Hnal. discriminate.
+    + (* attached to a cacheable task: not a do_not_cache operation *)
+      exfalso. assert (Eo : o = s_nops s1).
+      { assert (Hk : In o (map fst (s_ops s2))) by (apply in_map_iff; exists (o, x); auto). rewrite Kd in Hk. apply in_app_or in Hk. destruct Hk as [Hk|[<-|[]]]; [rewrite (Hold o Hk) in Hnal; discriminate|reflexivity]. }
+      subst o. destruct HO as [_ [Ht _]]. rewrite Ego in Ht. destruct HT as [_ [_ [_ [_ [Hdn' _]]]]]. cbv zeta in Hdn'.
+      cbn [do_action observe_op] in Hact. rewrite Ht, Hdn', Hdc in Hact. discriminate.
+    + assert (Eo : o = s_nops s1).
+      { assert (Hk : In o (map fst (s_ops s2))) by (apply in_map_iff; exists (o, x); auto). rewrite Kn in Hk. apply in_app_or in Hk. destruct Hk as [Hk|[<-|[]]]; [rewrite (Hold o Hk) in Hnal; discriminate|reflexivity]. }
+      subst o. destruct HO as [_ [Ht _]]. rewrite Ego in Ht. destruct HT as [Hto _]. cbv zeta in Hto.
+      cbn [do_taskops observe_op]. rewrite Ht, Hto, Hops. reflexivity.
+  - (* routing *)
+    unfold c05_exec. cbv zeta.
+    set (created := filter (fun x => negb (do_mayexist x)) (new_ops pre (observe s'))).
+    destruct Hdesc as [[Ks Hs]|[[Kd [xn [x0 [HO [Hm [HT [Hi [Hdg [Hlen Hdc]]]]]]]]]|[Kn [Hni [p [xn [x0 [Hlp [HO [Hm [Hinv [HT [Hops [Hi [Hdg [Hsuf _]]]]]]]]]]]]]]]].
+    + (* nothing created *)
+      assert (Ecr : created = []).
+      { unfold created. rewrite Hnew. rewrite filter_keys_none; [reflexivity|]. intros k Hk. apply Hold. rewrite <- Ks. exact Hk. }
+      rewrite Ecr. cbn [existsb orb]. destruct Hs as [Hin|[Hnp' Hret]].
+      * rewrite (Hinfl Hin). reflexivity.
+      * destruct (existsb _ (d_inflight pre)); cbn [andb]; [reflexivity|].
+        rewrite longest_prefix_observe. rewrite (longest_prefix_pq_frame s1) by (change (s_pqs s') with (s_pqs s3); rewrite A4; exact Epq). rewrite Hnp'. cbn [option_map].
+        assert (Ecode : (if d_now (observe s') <? t0 + cf_pq_noworkers cfg then cUNAVAILABLE else cFAILEDPRE) = (if s_now s1 <? s_hardfail s1 then cUNAVAILABLE else cFAILEDPRE)).
+        { change (d_now (observe s')) with (s_now s3). rewrite A6, Enow.
+          assert (Eh : s_hardfail s1 = t0 + cf_pq_noworkers cfg).
+          { assert (Hk : keeps_cfg (s_cfg s) (s_hardfail s) s1); [|rewrite (proj2 Hk); exact Hhf].
+            unfold s1, enter. destruct (s_now s0 <? t); [|split; reflexivity]. cbv zeta.
+            assert (Hk0 : keeps_cfg (s_cfg s) (s_hardfail s) (s0 <| s_now := t |>)) by (split; reflexivity).
+            fr_go (keeps_cfg (s_cfg s) (s_hardfail s)) t_cfg. }
+          rewrite Eh. reflexivity. }
+        rewrite Ecode.
+        match goal with |- (if ?b then _ else _) = _ => assert (Hb : b = true); [|rewrite Hb; reflexivity] end.
+        apply existsb_exists. exists (ORet c (if s_now s1 <? s_hardfail s1 then cUNAVAILABLE else cFAILEDPRE)). split.
+        -- rewrite <- in_rev. unfold s3. assert (H3 : out_has (ORet c (if s_now s1 <? s_hardfail s1 then cUNAVAILABLE else cFAILEDPRE)) (auto_returns s2)); [|exact H3].
+           apply (fr_auto_returns (out_has _)); try (intros; t_oh); try (intros; unfold ret; inv_go fail t_oh); try exact Hret.
+        -- rewrite Nat.eqb_refl, N.eqb_refl. reflexivity.
+    + (* attached to the task in flight *)
+      destruct (filter_keys_last (fun o => negb (op_alive s o)) (s_ops s2) (map fst (s_ops s1)) (s_nops s1) Kd Hold Hfresh) as [x [Ef Hx]].
+      assert (Ego : get_op s2 (s_nops s1) = x) by (unfold get_op; rewrite (In_aget_NoDup Nat.eqb nat_eqb_eq _ _ _ Hndo2 Hx); reflexivity).
+      destruct HO as [_ [Ht [_ Hme]]]. rewrite Ego in Ht, Hme. destruct HT as [Hto [Hti [Htd _]]]. cbv zeta in Hto, Hti, Htd.
+      assert (Ecr : created = [observe_op s2 (s_nops s1) x]).
+      { unfold created. rewrite Hnew, Ef. cbn [map filter]. cbn [do_mayexist observe_op]. rewrite Hme, Hm. reflexivity. }
+      rewrite Ecr. cbn [existsb]. unfold dkey_of. cbn [do_instance do_digest do_taskops observe_op]. rewrite Ht, Hti, Htd, Hto, Hi, Hdg, map_length.
+      assert (E1 : dkey_eqb (x_instance a, x_digest a) (x_instance a, x_digest a) = true) by (apply dkey_eqb_eq; reflexivity). rewrite E1.
+      destruct (Nat.eqb (List.length (t_ops x0)) 1) eqn:E2; [apply Nat.eqb_eq in E2; lia|]. reflexivity.
+    + (* a new task in the queue the router chose *)
+      destruct (filter_keys_last (fun o => negb (op_alive s o)) (s_ops s2) (map fst (s_ops s1)) (s_nops s1) Kn Hold Hfresh) as [x [Ef Hx]].
+      assert (Ego : get_op s2 (s_nops s1) = x) by (unfold get_op; rewrite (In_aget_NoDup Nat.eqb nat_eqb_eq _ _ _ Hndo2 Hx); reflexivity).
+      destruct HO as [_ [Ht [Hiv Hme]]]. rewrite Ego in Ht, Hiv, Hme. destruct HT as [Hto [Hti [Htd [Hts _]]]]. cbv zeta in Hto, Hti, Htd, Hts.
+      assert (Ecr : created = [observe_op s2 (s_nops s1) x]).
+      { unfold created. rewrite Hnew, Ef. cbn [map filter]. cbn [do_mayexist observe_op]. rewrite Hme, Hm. reflexivity. }
+      rewrite Ecr. cbn [existsb]. unfold dkey_of. cbn [do_instance do_digest do_taskops observe_op]. rewrite Ht, Hto, Hops. cbn [map List.length Nat.eqb negb]. rewrite andb_false_r. cbn [orb].
+      rewrite andb_false_r. cbn [orb].
+      rewrite longest_prefix_observe. rewrite (longest_prefix_pq_frame s1) by (change (s_pqs s') with (s_pqs s3); rewrite A4; exact Epq). rewrite Hlp. cbn [option_map].
+      destruct (x_sel a) as [[[idx dur] timeout] l] eqn:Esel. cbn [fst] in Hinv. cbn [do_sk do_suffix observe_op dp_key dp_scs observe_pq].
+      rewrite Hiv, Hinv. cbn [i_sk sk_pk sk_sc]. rewrite (proj2 (pkey_eqb_eq _ _) eq_refl), N.eqb_refl. cbn [negb].
+      rewrite Ht, Hts, Hsuf. rewrite (proj2 (list_eqb_N_eq _ _) eq_refl). reflexivity.
+Qed.
+
+Lemma pre_ok_init : forall cfg t0, pre_ok empty_dump (init cfg t0).
+Proof. intros. split; reflexivity. Qed.
+
+Theorem monitor_exec_on_model : forall cfg t0 evs,
+  selectors_in_range (init cfg t0) evs -> fresh_calls [] evs -> bg_scripts_ok evs ->
+  panicked (snd (run (init cfg t0) evs)) \/ trace_sub [9%nat] cfg t0 (model_trace cfg t0 evs) = true.
+Proof.
+  intros cfg t0 evs Hsel Hfr Hbg.
+  apply (trace_sub_generic cfg t0 [9%nat] (fun pfx _ pre => pre_ok pre (fst (run (init cfg t0) pfx)))) with (pfx := []) (m := mon0) (pre := empty_dump);
+    [|split; [exact Hsel|split; assumption]|intros [o [what [[] _]]]|apply pre_ok_init].
+  intros pfx eh m pre Hg Hnp HI. cbv zeta.
+  split; [|rewrite run_snoc_fst; split; reflexivity]. cbn [forallb]. rewrite andb_true_r. apply String.eqb_eq.
+  unfold p_components. cbv zeta. cbn [nth].
+  exact (pc_exec_ok cfg t0 pfx eh pre Hg Hnp HI).
 Qed.
